@@ -394,7 +394,14 @@ fn ipv4_dec(b: &[u8]) -> String {
                 AsMut::<[u8]>::as_mut(&mut d.options)[n - 1] ^= 1;
             }
             let o = &h.options;
-            let bad = eq_laws_bad(&h, Some(d))
+            // the deprecated in-place setter on a header with a history
+            #[allow(deprecated)]
+            let stale_bad = {
+                let mut st = h.clone();
+                st.set_options(&[0xee; 40]).is_err() || st.set_options(&[0xdd; 8]).is_err() || st.set_options(&[1, 2, 3]).is_ok() || st.set_options(h.options.as_slice()).is_err() || st != h || st.to_bytes() != h.to_bytes()
+            };
+            let bad = stale_bad
+                || eq_laws_bad(&h, Some(d))
                 || eq_laws_bad(o, None)
                 || o.cmp(&o.clone()) != core::cmp::Ordering::Equal
                 || o.partial_cmp(&o.clone()) != Some(core::cmp::Ordering::Equal)
